@@ -83,6 +83,12 @@ static void cqv_rl_reset(void) {
   cqv_rl_id = (int16_t)nondet_int();
   cqv_rl_count = nondet_int();
   __CPROVER_assume(cqv_rl_type != 0 && cqv_rl_count >= 0 && cqv_rl_count <= 2);
+  /* ghost values handed out by the readers: arbitrary integer / bool; binary = NULL,0 or a readable buffer of binlen bytes */
+  cqv_rl_none = 0; cqv_rl_v = nondet_i64(); cqv_rl_vb = nondet_bool();
+  cqv_rl_binlen = nondet_i32();
+  __CPROVER_assume(cqv_rl_binlen >= 0 && cqv_rl_binlen <= (1 << 20));
+  cqv_rl_bin = cqv_rl_binlen > 0 ? malloc((size_t)cqv_rl_binlen) : NULL;
+  __CPROVER_assume(cqv_rl_binlen == 0 || cqv_rl_bin != NULL);
 }
 static int cqv_rl_readers(void) {
   return cqv_rl_n_byte + cqv_rl_n_i16 + cqv_rl_n_i32 + cqv_rl_n_i64 + cqv_rl_n_bool + cqv_rl_n_bin + cqv_rl_n_list;
@@ -185,4 +191,78 @@ void h_disp_page_header(void) {
   MK(parquet_page_header_t, h); size_t br;
   carquet_status_t st = parquet_parse_page_header(data, n, h, &br, NULL);
   cqv_rl_check(K_PAGE_HEADER, 1u << 6);
+}
+
+/* ======================= C13/C14 field semantics (-DCQV_PT_RLOG, exact memset) ===============================
+ * What the output struct HOLDS after parsing a struct whose only field is the ghost field (id, declared wire type) with
+ * ghost value v (integers), vb (bool), (bin, binlen) (binary) - or no field at all (cqv_rl_none): the member that
+ * parquet.thrift associates with that id holds the value and its presence flag is set; every other member keeps the
+ * zero of the initial memset (catches swapped members and presence flags derived from the value). */
+#define SEM_MATCH(kind) (!cqv_rl_none && cqv_pt_wire_matches(cqv_pt_wire((kind), cqv_rl_id), cqv_rl_type))
+#define SEM_IS(kind, k) (SEM_MATCH(kind) && cqv_rl_id == (k))
+
+void h_sem_page_header(void) {
+  cqv_rl_reset(); cqv_rl_none = nondet_bool();
+  size_t n = nondet_size_t(); __CPROVER_assume(n >= 1 && n <= CQV_MAXBUF);
+  uint8_t *data = malloc(n); __CPROVER_assume(data != NULL);
+  MK(parquet_page_header_t, h); size_t br = 7;
+  carquet_status_t st = parquet_parse_page_header(data, n, h, &br, NULL);
+  int32_t v = (int32_t)cqv_rl_v;
+  __CPROVER_assert(st == CARQUET_OK, "C13 page header: a well-formed header parses");
+  if (cqv_rl_none || SEM_MATCH(K_PAGE_HEADER) || cqv_pt_wire(K_PAGE_HEADER, cqv_rl_id) == 0) {
+    __CPROVER_assert((int32_t)h->type == (SEM_IS(K_PAGE_HEADER, 1) ? v : 0), "C13 page header: field 1 and only field 1 is stored in type");
+    __CPROVER_assert(h->uncompressed_page_size == (SEM_IS(K_PAGE_HEADER, 2) ? v : 0), "C13 page header: field 2 and only field 2 is stored in uncompressed_page_size");
+    __CPROVER_assert(h->compressed_page_size == (SEM_IS(K_PAGE_HEADER, 3) ? v : 0), "C13 page header: field 3 and only field 3 is stored in compressed_page_size");
+    __CPROVER_assert(h->has_crc == (SEM_IS(K_PAGE_HEADER, 4) ? 1 : 0), "C13/C14 page header: has_crc is set exactly when field 4 is present, whatever its value (0 included)");
+    __CPROVER_assert(h->crc == (SEM_IS(K_PAGE_HEADER, 4) ? v : 0), "C13/C14 page header: field 4 and only field 4 is stored in crc");
+    if (SEM_IS(K_PAGE_HEADER, 8)) __CPROVER_assert(h->data_page_header_v2.is_compressed, "C13 page header: DataPageHeaderV2.is_compressed defaults to true");
+    if (SEM_IS(K_PAGE_HEADER, 5)) __CPROVER_assert(h->data_page_header.num_values == 0 && !h->data_page_header.has_statistics, "C13 page header: empty DataPageHeader leaves its members zero");
+    if (SEM_IS(K_PAGE_HEADER, 7)) __CPROVER_assert(h->dictionary_page_header.num_values == 0 && !h->dictionary_page_header.is_sorted, "C13 page header: empty DictionaryPageHeader leaves its members zero");
+  }
+  if (SEM_IS(K_PAGE_HEADER, 4)) { CQV_CANARY("sem page header: crc present"); if (v == 0) CQV_CANARY("sem page header: crc present with value 0"); }
+  if (cqv_rl_none) CQV_CANARY("sem page header: no field"); else CQV_CANARY("sem page header: one field");
+}
+
+static void sem_bin(const uint8_t *p, int32_t len, _Bool mine, const char *unused) {
+  (void)unused;
+  __CPROVER_assert(len == (mine ? cqv_rl_binlen : 0), "C13 statistics: binary member length is what the binary reader returned for its own field id, else 0");
+  __CPROVER_assert((p != NULL) == (mine && cqv_rl_binlen > 0), "C13 statistics: binary member is present exactly for a non-empty value of its own field id");
+}
+void h_sem_statistics(void) {
+  cqv_rl_reset(); cqv_rl_none = nondet_bool(); thrift_decoder_t *dec = mk_dec(); MK(parquet_statistics_t, s);
+  parse_statistics(dec, nondet_ptr(), s);
+  if (cqv_rl_none || SEM_MATCH(K_STATISTICS) || cqv_pt_wire(K_STATISTICS, cqv_rl_id) == 0) {
+    sem_bin(s->max_deprecated, s->max_deprecated_len, SEM_IS(K_STATISTICS, 1), "max");
+    sem_bin(s->min_deprecated, s->min_deprecated_len, SEM_IS(K_STATISTICS, 2), "min");
+    sem_bin(s->max_value, s->max_value_len, SEM_IS(K_STATISTICS, 5), "max_value");
+    sem_bin(s->min_value, s->min_value_len, SEM_IS(K_STATISTICS, 6), "min_value");
+    __CPROVER_assert(s->has_null_count == (SEM_IS(K_STATISTICS, 3) ? 1 : 0) && s->null_count == (SEM_IS(K_STATISTICS, 3) ? cqv_rl_v : 0), "C13 statistics: null_count present and stored exactly for field 3");
+    __CPROVER_assert(s->has_distinct_count == (SEM_IS(K_STATISTICS, 4) ? 1 : 0) && s->distinct_count == (SEM_IS(K_STATISTICS, 4) ? cqv_rl_v : 0), "C13 statistics: distinct_count present and stored exactly for field 4");
+    __CPROVER_assert(s->has_is_max_value_exact == (SEM_IS(K_STATISTICS, 7) ? 1 : 0) && s->is_max_value_exact == (SEM_IS(K_STATISTICS, 7) ? cqv_rl_vb : 0), "C13 statistics: is_max_value_exact present and stored exactly for field 7");
+    __CPROVER_assert(s->has_is_min_value_exact == (SEM_IS(K_STATISTICS, 8) ? 1 : 0) && s->is_min_value_exact == (SEM_IS(K_STATISTICS, 8) ? cqv_rl_vb : 0), "C13 statistics: is_min_value_exact present and stored exactly for field 8");
+  }
+  if (SEM_IS(K_STATISTICS, 6)) CQV_CANARY("sem statistics: min_value");
+  if (SEM_IS(K_STATISTICS, 3) && cqv_rl_v == 0) CQV_CANARY("sem statistics: null_count 0");
+  if (cqv_rl_none) CQV_CANARY("sem statistics: no field");
+}
+void h_sem_schema_element(void) {
+  cqv_rl_reset(); cqv_rl_none = nondet_bool(); thrift_decoder_t *dec = mk_dec(); MK(parquet_schema_element_t, e);
+  parse_schema_element(dec, nondet_ptr(), e);
+  int32_t v = (int32_t)cqv_rl_v;
+  if (cqv_rl_none || (SEM_MATCH(K_SCHEMA_ELEMENT) && cqv_rl_id != 10) || cqv_pt_wire(K_SCHEMA_ELEMENT, cqv_rl_id) == 0) {
+    __CPROVER_assert(e->has_type == (SEM_IS(K_SCHEMA_ELEMENT, 1) ? 1 : 0) && (int32_t)e->type == (SEM_IS(K_SCHEMA_ELEMENT, 1) ? v : 0), "C13 schema element: type present and stored exactly for field 1");
+    __CPROVER_assert(e->type_length == (SEM_IS(K_SCHEMA_ELEMENT, 2) ? v : 0), "C13 schema element: type_length stored exactly for field 2");
+    __CPROVER_assert(e->has_repetition == (SEM_IS(K_SCHEMA_ELEMENT, 3) ? 1 : 0) && (int32_t)e->repetition_type == (SEM_IS(K_SCHEMA_ELEMENT, 3) ? v : 0), "C13 schema element: repetition_type present and stored exactly for field 3");
+    __CPROVER_assert((e->name != NULL) == (SEM_IS(K_SCHEMA_ELEMENT, 4) ? 1 : 0), "C13 schema element: name present exactly for field 4 (empty string included)");
+    __CPROVER_assert(e->num_children == (SEM_IS(K_SCHEMA_ELEMENT, 5) ? v : 0), "C13 schema element: num_children stored exactly for field 5");
+    __CPROVER_assert(e->has_converted_type == (SEM_IS(K_SCHEMA_ELEMENT, 6) ? 1 : 0) && (int32_t)e->converted_type == (SEM_IS(K_SCHEMA_ELEMENT, 6) ? v : 0), "C13 schema element: converted_type present and stored exactly for field 6");
+    __CPROVER_assert(e->scale == (SEM_IS(K_SCHEMA_ELEMENT, 7) ? v : 0), "C13 schema element: scale stored exactly for field 7");
+    __CPROVER_assert(e->precision == (SEM_IS(K_SCHEMA_ELEMENT, 8) ? v : 0), "C13 schema element: precision stored exactly for field 8");
+    __CPROVER_assert(e->has_field_id == (SEM_IS(K_SCHEMA_ELEMENT, 9) ? 1 : 0) && e->field_id == (SEM_IS(K_SCHEMA_ELEMENT, 9) ? v : 0), "C13 schema element: field_id present and stored exactly for field 9");
+    __CPROVER_assert(!e->has_logical_type, "C13 schema element: no logical type without field 10");
+  }
+  if (SEM_IS(K_SCHEMA_ELEMENT, 10)) __CPROVER_assert(e->has_logical_type, "C13 schema element: logical type present for field 10");
+  if (SEM_IS(K_SCHEMA_ELEMENT, 4)) { CQV_CANARY("sem schema element: name"); if (cqv_rl_binlen == 0) CQV_CANARY("sem schema element: empty name"); }
+  if (SEM_IS(K_SCHEMA_ELEMENT, 9)) CQV_CANARY("sem schema element: field_id");
+  if (cqv_rl_none) CQV_CANARY("sem schema element: no field");
 }
